@@ -179,6 +179,41 @@ def extreme_frequencies(res, rng, C):
                         fail(res, 'non-negative (not nan) at an extreme positive frequency', name, tuple(args), float(v))
 
 
+def flags_and_zero_heights(res, rng, lsm):
+    """(1) the `normalized` flag as any true / false value (a numpy bool from a comparison, 1 / 0): the result is that of True / False;
+    (2) Ochi-Hubble with one significant wave height exactly zero: the area is the other one's Hs^2 / 16 and the value is continuous in Hs"""
+    import numpy as np
+    for fn, args in (('davenportSpectrumWithDragCoef', (0.02, 20.0, 0.005)), ('davenportSpectrumWithRoughnessLength', (0.02, 20.0, 30.0, 0.03)),
+                     ('ec1Spectrum', (0.05, 25.0, 2.0, 30.0, 2)), ('iecSpectrum', (0.05, 15.0, 1.5, 40.0, 2))):
+        f = getattr(lsm, fn)
+        for truth, variants in ((True, (np.bool_(True), 1, np.array([0.3]) < 1.0)), (False, (np.bool_(False), 0))):
+            want = float(f(*args, truth))
+            for v in variants:
+                v = v[0] if isinstance(v, np.ndarray) else v
+                res.evaluations += 1
+                res.stat('normalized_flag_not_the_python_singleton')
+                try:
+                    got = float(f(*args, v))
+                except Exception as e:  # noqa
+                    fail(res, 'a true / false `normalized` flag of type %s rejected: %s' % (type(v).__name__, repr(e)[:60]), fn, args + (repr(v),), None)
+                    continue
+                if not gen.close(got, want, 1e-12):
+                    fail(res, 'normalized = %r (%s) is not treated as %s' % (v, type(v).__name__, truth), fn, args + (repr(v),), [got, want])
+    for (w1, w2, h1, h2, l1, l2) in ((0.4, 0.9, 3.0, 0.0, 2.0, 1.5), (0.3, 0.7, 0.0, 2.0, 3.0, 1.0)):
+        res.evaluations += 1
+        res.stat('ochi_hubble_one_height_zero')
+        a0 = (w1, w2, h1, h2, l1, l2)
+        got = area(lambda w: lsm.ochiHubbleSpectrum(w, *a0), 0, math.inf, w1 if h1 else w2)
+        want = (h1 * h1 + h2 * h2) / 16
+        if abs(got - want) > 1e-6 * want:
+            fail(res, 'area', 'ochiHubbleSpectrum', a0, [got, want])
+        eps = (w1, w2, h1 or 1e-9, h2 or 1e-9, l1, l2)
+        wv = w1 if h1 else w2
+        v0, v1 = float(lsm.ochiHubbleSpectrum(wv, *a0)), float(lsm.ochiHubbleSpectrum(wv, *eps))
+        if not gen.close(v0, v1, 1e-9):
+            fail(res, 'the spectrum jumps when a significant wave height goes from 1e-9 to exactly 0', 'ochiHubbleSpectrum', a0, [v0, v1])
+
+
 def explore(res, rng, n, areas):
     lsm = impl()
     C = calls(lsm)
@@ -212,6 +247,7 @@ def explore(res, rng, n, areas):
     narrow_integer_arguments(res, rng, C)
     tiny_frequencies(res, rng, C)
     extreme_frequencies(res, rng, C)
+    flags_and_zero_heights(res, rng, lsm)
     gen.validate(res, 'Wave', [c for c in tv if c[0] in ('piersonMoskowitzSpectrum', 'jonswapSpectrum', 'isscSpectrum',
                                                           'gaussianSwellSpectrum', 'ochiHubbleSpectrum')], rtol=1e-9)
     gen.validate(res, 'Wind', [c for c in tv if c[0] not in ('piersonMoskowitzSpectrum', 'jonswapSpectrum', 'isscSpectrum',
